@@ -473,8 +473,139 @@ pub fn check(site: Site, v: u64) -> Option<Violation> {
     }
 }
 
+/// Objects that stay in the caller's hands after a refused (panicking) mutator: serialised again
+/// they must still be what the accepted calls built -- the refusal leaves no trace, so no count or
+/// length field can disagree with the content that follows. (before, after); None = not refused
+/// here (the site sweep above judges what was returned).
+pub const AFTER_REFUSAL: [&str; 12] = [
+    "PackageBuilder::new/256th", "PackageBuilder::default/256th", "PackageBuilder/Arg7@0", "PackageBuilder/Arg7@3", "PackageBuilder/Local8@254",
+    "MemorySideCache/65536th", "XorInterleaveMath/256th", "QoSController/oversize-resource@0", "QoSController/oversize-resource@3", "QoSController/length-overflow",
+    "SystemLocality/index-outside", "ProcessorNode-in-PPTT/refused-then-next",
+];
+
+fn refused<T>(f: impl FnOnce() -> T) -> bool {
+    catch_unwind(AssertUnwindSafe(f)).is_err()
+}
+
+pub fn after_refusal(name: &str) -> Option<(Vec<u8>, Vec<u8>)> {
+    let gas = GasV { pci: false, space: 0, width: 64, offset: 0, access: 4, addr: 0x1000, dev: 0, func: 0, reg: 0 };
+    let small = |i: u32| rqsc::ResourceStructure::new(rqsc::ResourceType::Cache, i as u16, rqsc::ResourceID::Cache(rqsc::CacheResource::new(i)));
+    let vendor = |n: usize| rqsc::ResourceStructure::new(rqsc::ResourceType::Memory, 7, rqsc::ResourceID::VendorSpecific(0x80, vec![0x5a; n]));
+    match name {
+        "PackageBuilder::new/256th" | "PackageBuilder::default/256th" => {
+            let mut b = if name.contains("new") { aml::PackageBuilder::new() } else { aml::PackageBuilder::default() };
+            for i in 0..255u32 {
+                b.add_element(&(i as u8));
+            }
+            let before = ser(&b);
+            refused(|| b.add_element(&0x77u8)).then(|| (before, ser(&b)))
+        }
+        "PackageBuilder/Arg7@0" | "PackageBuilder/Arg7@3" | "PackageBuilder/Local8@254" => {
+            let k: u32 = name.rsplit('@').next().unwrap().parse().unwrap();
+            let mut b = aml::PackageBuilder::new();
+            for i in 0..k {
+                b.add_element(&(0x1000u16 + i as u16));
+            }
+            let before = ser(&b);
+            // both children assert before they emit their first byte
+            let r = if name.contains("Arg7") { refused(|| b.add_element(&aml::Arg(7))) } else { refused(|| b.add_element(&aml::Local(8))) };
+            // and the builder goes on working
+            b.add_element(&0x42u8);
+            let mut want = aml::PackageBuilder::new();
+            for i in 0..k {
+                want.add_element(&(0x1000u16 + i as u16));
+            }
+            want.add_element(&0x42u8);
+            let _ = before;
+            r.then(|| (ser(&want), ser(&b)))
+        }
+        "MemorySideCache/65536th" => {
+            let hs: Vec<u16> = (0..65_535u32).map(|i| i as u16).collect();
+            let mut c = mk_side_cache(1, 2, 1, 1, 1, 1, 64, &hs);
+            let before = ser(&c);
+            refused(|| c.add_smbios_handle(0x7777)).then(|| (before, ser(&c)))
+        }
+        "XorInterleaveMath/256th" => {
+            let mut x = acpi_tables::cedt::XorInterleaveMath::new(mk_gran(1));
+            for i in 0..255u64 {
+                x.add_xormap(i);
+            }
+            let before = ser(&x);
+            refused(|| x.add_xormap(0x7777)).then(|| (before, ser(&x)))
+        }
+        "QoSController/oversize-resource@0" | "QoSController/oversize-resource@3" => {
+            let k: u32 = name.rsplit('@').next().unwrap().parse().unwrap();
+            let mut c = mk_rqsc_ctl(0, &gas, 1, 2, 0, &[]);
+            for i in 0..k {
+                c.add_resource(small(i));
+            }
+            let before = ser(&c);
+            // a resource that is valid on its own but cannot fit the controller's 16-bit length
+            let big = vendor(65_500);
+            refused(|| c.add_resource(big)).then(|| (before, ser(&c)))
+        }
+        "QoSController/length-overflow" => {
+            let mut c = mk_rqsc_ctl(1, &gas, 1, 2, 0, &[]);
+            c.add_resource(vendor(65_000));
+            let before = ser(&c);
+            let big = vendor(600);
+            refused(|| c.add_resource(big)).then(|| (before, ser(&c)))
+        }
+        "SystemLocality/index-outside" => {
+            use acpi_tables::hmat;
+            let mut s = hmat::SystemLocality::new(hmat::LocalityType::Memory, hmat::DataType::ReadLatency, hmat::MinTransferSize::Size64b, 1000, 2, 3);
+            s.set_initiator_value(0, 11);
+            s.set_target_value(2, 22);
+            s.set_entry_value(1, 2, 33);
+            let before = ser(&s);
+            let r = refused(|| s.set_initiator_value(2, 99)) & refused(|| s.set_target_value(3, 99)) & refused(|| s.set_entry_value(2, 0, 99));
+            r.then(|| (before, ser(&s)))
+        }
+        "ProcessorNode-in-PPTT/refused-then-next" => {
+            use acpi_tables::pptt;
+            // a processor node with too many private resources is refused by the table; the table then
+            // takes an ordinary node: its image must be that of a table that never saw the refused one
+            let build = |with_refused: bool| -> Option<Vec<u8>> {
+                let mut t = pptt::PPTT::new(*b"OEMIDX", *b"TABLEID0", 1);
+                let c = t.add_cache(pptt::CacheNodeBuilder::default().to_node());
+                if with_refused {
+                    let r = refused(|| {
+                        let mut n = pptt::ProcessorNode::new(None, 9);
+                        for _ in 0..59 {
+                            n = n.add_cache(&c);
+                        }
+                        t.add_processor(n);
+                    });
+                    if !r {
+                        return None;
+                    }
+                }
+                let p = t.add_processor(pptt::ProcessorNode::new(None, 1).add_cache(&c));
+                t.add_processor(pptt::ProcessorNode::new(Some(&p), 2));
+                Some(ser(&t))
+            };
+            let want = build(false)?;
+            build(true).map(|got| (want, got))
+        }
+        _ => None,
+    }
+}
+
+pub fn check_after_refusal(name: &str) -> Option<Violation> {
+    let r = catch_unwind(AssertUnwindSafe(|| after_refusal(name)));
+    let profile = if overflow_checks_on() { "overflow-checks-on" } else { "overflow-checks-off" };
+    match r {
+        Err(_) => Some(Violation::new("C18", name, "unusable-after-refusal", format!("build:{}", profile), "the object panicked when used again after a refused call".into())),
+        Ok(Some((want, got))) if want != got => {
+            let at = want.iter().zip(got.iter()).position(|(a, b)| a != b).unwrap_or(want.len().min(got.len()));
+            Some(Violation::new("C18", name, "changed-by-refused-call", format!("build:{}", profile), format!("len {} -> {}; first difference at byte {}", want.len(), got.len(), at)))
+        }
+        _ => None,
+    }
+}
+
 pub fn run(ctx: &Ctx) {
-    ctx.set_rule("for every encoded count/length field with a caller-controlled source (33 sites: package / package-builder elements, path segments, method arguments, Arg/Local index, named and reserved field widths, PkgLength >= 2^28 through the encoder and (thorough) a real 256 MiB buffer, word/dword/qword address ranges, PPTT private resources, CXIMS maps, HMAT SMBIOS handles, RIMT wires / id mappings / platform name, VIOT node count and handle offset, SLIT localities, RHCT ISA string and hart-info offsets, RQSC vendor data and resources): values at the field maximum (must be accepted and framed correctly, judged by the C03/C06 oracles) and above it (maximum+1, +2, far beyond; must panic), in this build and, through a second binary, in the build with the other overflow-check setting. A value above the maximum that returns bytes is a violation; the framing oracles then state which field disagrees. Non-trivial = a case above the field maximum (the at-maximum cases are controls); distinct = distinct (site, value, build).");
+    ctx.set_rule("for every encoded count/length field with a caller-controlled source (33 sites: package / package-builder elements, path segments, method arguments, Arg/Local index, named and reserved field widths, PkgLength >= 2^28 through the encoder and (thorough) a real 256 MiB buffer, word/dword/qword address ranges, PPTT private resources, CXIMS maps, HMAT SMBIOS handles, RIMT wires / id mappings / platform name, VIOT node count and handle offset, SLIT localities, RHCT ISA string and hart-info offsets, RQSC vendor data and resources): values at the field maximum (must be accepted and framed correctly, judged by the C03/C06 oracles) and above it (maximum+1, +2, far beyond; must panic), in this build and, through a second binary, in the build with the other overflow-check setting. Objects that stay in the caller's hands after a refused call (package builder, side cache, CXIMS, QoS controller, locality structure, a PPTT that refused a node) are serialised again and must be byte-identical to what the accepted calls built. A value above the maximum that returns bytes is a violation; the framing oracles then state which field disagrees. Non-trivial = a case above the field maximum (the at-maximum cases are controls); distinct = distinct (site, value, build).");
     ctx.assume("sizes that need >= 4 GiB of real data (u32 table Length overflow, SLIT with 65535 localities) are out of reach and not claimed");
     ctx.assume(&format!("this process: overflow checks {}", if overflow_checks_on() { "ON" } else { "OFF" }));
     let mut jobs: Vec<(Site, u64)> = Vec::new();
@@ -504,6 +635,17 @@ pub fn run(ctx: &Ctx) {
     for ((s, v), x) in res {
         if seen.insert(x.sig()) {
             ctx.report("c18.site", json!({"case": {"site": s.name(), "value": v, "profile": prof}}), vec![x]);
+        }
+    }
+    // objects used again after a refused call
+    let ar: Vec<(&str, Option<Violation>)> = AFTER_REFUSAL.par_iter().map(|n| (*n, check_after_refusal(n))).collect();
+    ctx.add_evals(ar.len() as u64);
+    ctx.add_engine("directed:c18.after-refusal", ar.len() as u64);
+    ctx.add_nontrivial(AFTER_REFUSAL.iter().map(|n| fingerprint(&(*n, prof))));
+    ctx.add_class(&format!("after-refusal:{}", prof), ar.len() as u64);
+    for (n, x) in ar {
+        if let Some(x) = x {
+            ctx.report("c18.after-refusal", json!({"case": {"after_refusal": n, "profile": prof}}), vec![x]);
         }
     }
     // the other build profile, as a child process
@@ -541,6 +683,9 @@ pub fn run(ctx: &Ctx) {
 }
 
 pub fn replay(case: &serde_json::Value) -> Vec<Violation> {
+    if let Some(n) = case["after_refusal"].as_str() {
+        return check_after_refusal(n).into_iter().collect();
+    }
     let name = case["site"].as_str().unwrap_or("");
     let v = case["value"].as_u64().unwrap_or(0);
     let want_profile = case["profile"].as_str().unwrap_or("");
